@@ -86,51 +86,61 @@ class SpacingToSize(Contract):
 
 
 def _line_nodes_formula(a, values):
-    """Closed form of every node of line_coordinates, from the C07 statement."""
+    """Every node of a line of regular coordinates, from the C07 statement, in *step form*:
+    nodes are start + i*step (or the midpoints start + (2i+1)*step/2 for pixel registration);
+    with adjust='spacing' (or a requested size) the bounds are hit exactly (n*step = extent), with
+    adjust='region' the step is the requested spacing; n is the integer nearest extent/spacing."""
     start, stop = a.start, a.stop
+    size = values.shape[0]
+    sc = _scale(start, stop, 0 if a.spacing is None else a.spacing)
     parts = {}
     if a.spacing is not None:
-        # number of intervals n = nearest integer to extent/spacing (>=1)
-        # nodes: n+1 (gridline) or n (pixel)
-        size = values.shape[0]
         n = size if a.pixel_register else size - 1
         parts["intervals_nearest_to_extent_over_spacing"] = _n_intervals_facts(n, start, stop, a.spacing)
-        if a.adjust == "spacing":
-            # both bounds hit exactly: step = extent / n
-            def node(i):
-                step_n = stop - start  # = n * step
-                sc = _scale(start, stop) * (n if not is_sym(n) else 1) * 2
-                if a.pixel_register:
-                    return close((values.at(i) - start) * n * 2, (2 * i + 1) * step_n, sc)
-                return close((values.at(i) - start) * n, i * step_n, sc)
-
-            parts["nodes_even_from_start_hitting_stop"] = Forall((size,), node)
-        else:
-            def node(i):
-                sc = _scale(start, stop, a.spacing)
-                if a.pixel_register:
-                    return close(values.at(i), start + (2 * i + 1) * a.spacing / 2, sc)
-                return close(values.at(i), start + i * a.spacing, sc)
-
-            parts["step_equals_spacing_only_stop_moves"] = Forall((size,), node)
+        hit_stop = a.adjust == "spacing"
     else:
-        size = values.shape[0]
         parts["node_count_is_requested_size"] = size == a.size
-        if a.pixel_register:
-            # midpoints of `size` equal intervals of [start, stop]
-            parts["pixel_midpoints"] = Forall(
-                (size,),
-                lambda i: close((values.at(i) - start) * a.size * 2, (2 * i + 1) * (stop - start), _scale(start, stop) * (a.size if not is_sym(a.size) else 1) * 2),
-            )
+        n = a.size if a.pixel_register else a.size - 1
+        hit_stop = True
+    if a.pixel_register:
+        h = values.at(0) - start  # half a step
+        parts["pixel_nodes_are_interval_midpoints"] = Forall((size,), lambda i: close(values.at(i), start + (2 * i + 1) * h, sc))
+        if hit_stop:
+            parts["intervals_span_the_region_exactly"] = close(2 * h * n, stop - start, sc)
         else:
-            parts["nodes_even_from_start_hitting_stop"] = Forall(
-                (size,),
-                lambda i: ite(
-                    a.size == 1,
-                    close(values.at(i), start, _scale(start, stop)),
-                    close((values.at(i) - start) * (a.size - 1), i * (stop - start), _scale(start, stop) * (a.size if not is_sym(a.size) else 1)),
-                ),
-            )
+            parts["step_equals_spacing"] = close(2 * h, a.spacing, sc)
+    else:
+        two = (size >= 2) if is_sym(size) else (size >= 2)
+        d = ite(two, values.at(1) - values.at(0), 0) if is_sym(size) else ((values.at(1) - values.at(0)) if size >= 2 else 0.0)
+        parts["nodes_evenly_spaced_from_start"] = Forall((size,), lambda i: close(values.at(i), start + i * d, sc))
+        if hit_stop:
+            parts["last_node_hits_stop"] = implies(two, close(n * d, stop - start, sc))
+        else:
+            parts["step_equals_spacing"] = close(d, a.spacing, sc)
+    return parts
+
+
+def _line_nodes_closed_forms(a, values):
+    """Consequences of the step form (closed forms without the step); proved for line_coordinates,
+    not assumed by stubs (names start with 'derived.')."""
+    start, stop = a.start, a.stop
+    size = values.shape[0]
+    parts = {}
+    if a.spacing is not None and a.adjust == "region":
+        sc = _scale(start, stop, a.spacing)
+        if a.pixel_register:
+            parts["derived.pixel_nodes_closed_form"] = Forall((size,), lambda i: close(values.at(i), start + (2 * i + 1) * a.spacing / 2, sc))
+        else:
+            parts["derived.nodes_closed_form"] = Forall((size,), lambda i: close(values.at(i), start + i * a.spacing, sc))
+    else:
+        n = size if a.pixel_register else size - 1
+        nn = n if not is_sym(n) else 1
+        sc = _scale(start, stop) * max(nn, 1) * 2
+        if a.pixel_register:
+            parts["derived.pixel_nodes_closed_form"] = Forall((size,), lambda i: close((values.at(i) - start) * n * 2, (2 * i + 1) * (stop - start), sc))
+        else:
+            parts["derived.nodes_closed_form"] = Forall((size,), lambda i: implies(size >= 2, close((values.at(i) - start) * n, i * (stop - start), sc)))
+            parts["derived.single_node_is_start"] = implies(size == 1, close(values.at(0), start, _scale(start, stop)))
     return parts
 
 
@@ -195,6 +205,7 @@ class LineCoordinates(Contract):
         out = {"is_1d_float_array": isinstance(r, SymArr) and r.ndim == 1 and r.kind == "f"}
         if isinstance(r, SymArr) and r.ndim == 1:
             out.update(_line_nodes_formula(a, r))
+            out.update(_line_nodes_closed_forms(a, r))
         return out
 
 
